@@ -782,4 +782,125 @@ theorem leaf_resolves (cfg : LeafCfg) (hdot : cfg.useDot = false) (kvs : Entries
   · rfl
   · simp [expand_nonlist pv.2 h3]
 
+/-! ### up to the specification `Denote.valuesForPath` -/
+
+theorem lf_dropTrailingEmpty_id (xs : List Str) (h : ∀ x ∈ xs, x ≠ []) :
+    dropTrailingEmpty xs = xs := by
+  unfold dropTrailingEmpty
+  cases hl : xs.getLast? with
+  | none => rfl
+  | some l =>
+    have := List.mem_of_getLast? hl
+    cases l with
+    | nil => exact absurd rfl (h _ this)
+    | cons _ _ => rfl
+
+theorem mem_joinWith (sep : Str) : ∀ (ss : List Str) (s : Str) (c : Char), s ∈ ss → c ∈ s →
+    c ∈ joinWith sep ss := by
+  intro ss
+  induction ss with
+  | nil => intro s c h; simp at h
+  | cons x rest ih =>
+    intro s c hs hc
+    cases rest with
+    | nil =>
+      simp only [List.mem_singleton] at hs
+      subst hs; simpa [joinWith] using hc
+    | cons y r =>
+      simp only [joinWith, List.mem_append]
+      rcases List.mem_cons.1 hs with e | e
+      · subst e; exact Or.inl (Or.inl hc)
+      · exact Or.inr (ih s c e hc)
+
+/-- without any index the pieces are plain keys -/
+theorem segs_plain : ∀ p : List Seg, segsOk p = true → (∀ s ∈ segStrs p, '[' ∉ s) →
+    (segStrs p).map Denote.plainStep = (segKeys p).map Denote.keyStep := by
+  intro p
+  induction p using segsOk.induct with
+  | case1 => intro _ _; simp [segStrs, segKeys]
+  | case2 k i rest ih =>
+    intro _ hall
+    exact absurd (by simp) (hall (k ++ '[' :: (natToStr i ++ [']'])) (by simp [segStrs]))
+  | case3 k rest hno ih =>
+    intro h hall
+    rw [segsOk_key_other k rest hno, Bool.and_eq_true] at h
+    rw [segStrs_key_other k rest hno] at hall ⊢
+    rw [segKeys_key_other k rest hno, List.map_cons, List.map_cons,
+      ih h.2 (fun s hs => hall s (by simp [hs]))]
+    rfl
+  | case4 i rest => intro h; simp [segsOk] at h
+
+theorem segKeys_idxOk : ∀ p : List Seg, segsOk p = true →
+    (segKeys p).all Denote.idxOk = true := by
+  intro p
+  induction p using segsOk.induct with
+  | case1 => intro _; simp [segKeys]
+  | case2 k i rest ih =>
+    intro h
+    simp only [segsOk, Bool.and_eq_true] at h
+    obtain ⟨⟨hk, _⟩, hr⟩ := h
+    obtain ⟨hne, _, _, hs⟩ := (keySafe_iff k).1 hk
+    have hstar : k ≠ ['*'] := by intro e; rw [e] at hs; simp at hs
+    have he : k.isEmpty = false := by cases k <;> simp_all
+    simp [segKeys, Denote.idxOk, hstar, he, ih hr]
+  | case3 k rest hno ih =>
+    intro h
+    rw [segsOk_key_other k rest hno, Bool.and_eq_true] at h
+    rw [segKeys_key_other k rest hno]
+    simp [Denote.idxOk, ih h.2]
+  | case4 i rest => intro h; simp [segsOk] at h
+
+/-- every leaf path of an admissible Map is in the domain of the C07 specification of
+    `ValuesForPath`, which yields exactly the one leaf value -/
+theorem leaf_resolves_spec (cfg : LeafCfg) (hdot : cfg.useDot = false) (kvs : Entries)
+    (hg : Good (.map kvs)) (sep : Str) (pf : Str → Option Str) :
+    ∀ pv ∈ leafSegs (.map kvs),
+      Denote.valuesForPath sep pf (.map kvs) (renderSegs cfg [] pv.1) [] = some [pv.2] := by
+  intro pv hpv
+  obtain ⟨hok, _, _⟩ := resolve_core (pv.1.length + 1) pv.1 (.map kvs) pv.2 (by omega) hg rfl hpv
+  obtain ⟨hparse, hpath⟩ := leaf_resolves cfg hdot kvs hg pv hpv
+  have hsub : subKeyArg sep pf [] = .ok none := by simp [subKeyArg]
+  unfold Denote.valuesForPath
+  simp only [hsub]
+  cases hc : (renderSegs cfg [] pv.1).contains '[' with
+  | true =>
+    simp only [Bool.not_true, Bool.false_eq_true, if_false, hparse, segKeys_idxOk pv.1 hok, hg.noLL,
+      Bool.and_self, if_true, Denote.subFilter, hpath]
+  | false =>
+    simp only [Bool.not_false, if_true, Denote.subFilter]
+    have hne : segStrs pv.1 ≠ [] := by
+      simp only [leafSegs] at hpv
+      obtain ⟨k, w, p', _, hp, _⟩ := mem_leafSegsEntries kvs pv.1 pv.2 hpv
+      rw [hp]
+      cases p' with
+      | nil => simp [segStrs]
+      | cons s r => cases s <;> simp [segStrs]
+    have hr : renderSegs cfg [] pv.1 = joinDot (segStrs pv.1) := by
+      rw [renderSegs_joinAcc cfg hdot pv.1 hok,
+        joinAcc_nil _ (fun s hs => (segStrs_ok pv.1 hok s hs).1)]
+    rw [hr] at hc ⊢
+    have hnb : ∀ s ∈ segStrs pv.1, '[' ∉ s := by
+      intro s hs hm
+      have := mem_joinWith ['.'] (segStrs pv.1) s '[' hs hm
+      have hc' : '[' ∉ joinDot (segStrs pv.1) := by simpa using hc
+      exact hc' this
+    have hk : pathKeys (joinDot (segStrs pv.1)) = segStrs pv.1 := by
+      unfold pathKeys splitDot joinDot
+      rw [lf_splitOn_joinWith '.' _ hne (fun s hs => (segStrs_ok pv.1 hok s hs).2)]
+      exact lf_dropTrailingEmpty_id _ (fun s hs => (segStrs_ok pv.1 hok s hs).1)
+    rw [hk, segs_plain pv.1 hok hnb, hpath]
+
+/-! ### the example used for non-vacuity in Mxj.Props.C09 -/
+
+/-- `{"doc": {"-x": "1", "#text": "hi", "it": [{"a": 1}, {"a": 2, "-y": true}]}}` -/
+def leafExMap : Entries :=
+  [(['d','o','c'], .map
+    [(['-','x'], .str ['1']),
+     (['#','t','e','x','t'], .str ['h','i']),
+     (['i','t'], .list
+        [.map [(['a'], .num ['i',':','1'])],
+         .map [(['a'], .num ['i',':','2']), (['-','y'], .bool true)]])])]
+
+def leafExCfg : LeafCfg := ⟨['-'], ['#','t','e','x','t'], false⟩
+
 end Mxj
